@@ -101,7 +101,7 @@ func runC08Core(c *sim.Ctx, t *testing.T) {
 	sim.Install(c)
 	defer sim.Uninstall()
 	// (A) a generated program and history, stride by stride
-	cfg := genCfg{failOps: true, permanents: true, guards: true, guardEmits: true, loops: true, maxNodes: 5}
+	cfg := genCfg{failOps: true, permanents: true, guards: true, guardEmits: true, loops: true, maxNodes: 5, errorNode: true}
 	gs := genSpec(c, cfg)
 	spec, err := compile(gs)
 	if err != nil {
